@@ -64,6 +64,13 @@ func (r Rounder) ShouldAddOne(result *BigInt, neg bool, half int) bool {
 // Round sets d to rounded x.
 func (r Rounder) Round(c *Context, d, x *Decimal, disableIfPrecisionZero bool) Condition {
 	d.Set(x)
+	if x.Form != Finite {
+		// An infinity has no digits to round. The coefficient and exponent it
+		// may carry are leftovers (an overflowed result keeps the rounded
+		// coefficient of the value that did not fit) and must not raise Rounded,
+		// Inexact or Overflow again.
+		return 0
+	}
 	nd := x.NumDigits()
 	xs := x.Sign()
 	var res Condition
